@@ -117,7 +117,7 @@ def run_kernel(log_prob_fn, z0, n_steps, rng=None, numpy_io=False):
             prop = z.copy()
             for i in range(n):
                 for k in range(d):
-                    prop[i, k] += CONFIG["scale"] * (2.0 * _hash_unit(z[i], f"p{k}") - 1.0)
+                    prop[i, k] += CONFIG["scale"] * (2.0 * _hash_unit(z[i], f"p{k}i{i}s{step}") - 1.0)
         else:
             raise RuntimeError(f"unknown stub kernel mode {mode}")
         lp_new = logp(prop)
@@ -136,7 +136,7 @@ def run_kernel(log_prob_fn, z0, n_steps, rng=None, numpy_io=False):
             u = np.asarray(rng.uniform(size=n), dtype=np.float64)
             accept = u < ratio
         else:
-            u = np.array([_hash_unit(z[i], "u") for i in range(n)])
+            u = np.array([_hash_unit(z[i], f"u{i}s{step}") for i in range(n)])
             accept = u < ratio
         z = np.where(accept[:, None], prop, z)
         lp = np.where(accept, lp_new, lp)
